@@ -37,6 +37,8 @@ structure GenFns where
   getitemInt : View → Int → Except Err View
   getitemSlice : View → Option Int → Option Int → Option Int → Except Err View
   richDictBounds : Option (View → Int × Int)
+  annotationOffset : View → Except Err Int
+  parentCoordinates : View → Except Err (Int × Int × Int)
 
 open CogentModel.Gen.C01View in
 def genOld : GenFns := {
@@ -45,7 +47,8 @@ def genOld : GenFns := {
   getIndex := GenOld.getIndex, absolutePosition := GenOld.absolutePosition, relativePosition := GenOld.relativePosition,
   zeroSlice := GenOld.zeroSlice, copy := GenOld.copy, fwdFromFwd := GenOld.fwdFromFwd, fwdFromRev := GenOld.fwdFromRev,
   revFromFwd := GenOld.revFromFwd, revFromRev := GenOld.revFromRev, getitemInt := GenOld.getitemInt,
-  getitemSlice := GenOld.getitemSlice, richDictBounds := some GenOld.richDictBounds }
+  getitemSlice := GenOld.getitemSlice, richDictBounds := some GenOld.richDictBounds,
+  annotationOffset := GenOld.annotationOffset, parentCoordinates := GenOld.parentCoordinates }
 
 open CogentModel.Gen.C01View in
 def genNew : GenFns := {
@@ -54,7 +57,8 @@ def genNew : GenFns := {
   getIndex := GenNew.getIndex, absolutePosition := GenNew.absolutePosition, relativePosition := GenNew.relativePosition,
   zeroSlice := GenNew.zeroSlice, copy := GenNew.copy, fwdFromFwd := GenNew.fwdFromFwd, fwdFromRev := GenNew.fwdFromRev,
   revFromFwd := GenNew.revFromFwd, revFromRev := GenNew.revFromRev, getitemInt := GenNew.getitemInt,
-  getitemSlice := GenNew.getitemSlice, richDictBounds := some GenNew.richDictBounds }
+  getitemSlice := GenNew.getitemSlice, richDictBounds := some GenNew.richDictBounds,
+  annotationOffset := GenNew.annotationOffset, parentCoordinates := GenNew.parentCoordinates }
 
 open CogentModel.Gen.C01View in
 def genData : GenFns := {
@@ -64,7 +68,8 @@ def genData : GenFns := {
   getIndex := GenData.getIndex, absolutePosition := GenData.absolutePosition, relativePosition := GenData.relativePosition,
   zeroSlice := GenData.zeroSlice, copy := fun v => .ok (GenData.copy v), fwdFromFwd := GenData.fwdFromFwd,
   fwdFromRev := GenData.fwdFromRev, revFromFwd := GenData.revFromFwd, revFromRev := GenData.revFromRev,
-  getitemInt := GenData.getitemInt, getitemSlice := GenData.getitemSlice, richDictBounds := none }
+  getitemInt := GenData.getitemInt, getitemSlice := GenData.getitemSlice, richDictBounds := none,
+  annotationOffset := GenData.annotationOffset, parentCoordinates := GenData.parentCoordinates }
 
 def rawViewJ (v : View) : J :=
   J.obj [("start", J.num v.start), ("stop", J.num v.stop), ("step", J.num v.step),
@@ -109,6 +114,8 @@ def handleGen (j : J) : Except String J := do
     match g.richDictBounds with
     | some f => let (a, b) := f (← view); pure (J.arr [J.num a, J.num b])
     | none => throw "richDictBounds is not generated for this namespace"
+  | "annotationOffset" => pure (exJ J.num (g.annotationOffset (← view)))
+  | "parentCoordinates" => pure (exJ t3J (g.parentCoordinates (← view)))
   | f => throw s!"unknown generated function {f}"
 
 end C01Gen
